@@ -5,6 +5,7 @@ cd "$(dirname "$0")"
 export PYTHONHASHSEED=0 PYTHONPATH=/repo
 mkdir -p _work evidence
 /venv/bin/python harness/translate.py
+OPENMDAO_REPORTS=0 /venv/bin/python -W ignore -m harness.wiring > /dev/null
 cd coq
 coq_makefile -f _CoqProject -o Makefile > /dev/null
 timeout 7200 make -j16 > ../_work/setup_make.log 2>&1 || { tail -50 ../_work/setup_make.log; exit 1; }
